@@ -63,7 +63,7 @@ func (cache *CacheLFU) GetCount(key string) (int, error) {
 
 func (cache *CacheLFU) Flush() {
 	clear(cache.keys)
-	clear(cache.entries)
+	cache.entries = cache.entries[:0]
 }
 
 func (cache *CacheLFU) Len() int {
